@@ -24,6 +24,25 @@ def announced_worlds(rng, nodes, proto):
     return worlds
 
 
+def virtual_dir_worlds(rng):
+    """OPEN_DIR of directories named through the virtual prefixes (at any depth) followed by every listing command: each request
+    gets exactly one response."""
+    t = 1500000000
+    nodes = [srv.dnode(["a"], t), srv.dnode(["a", "sub"], t + 1), srv.fnode(["a", "sub", "x.bin"], 10, cid="vd_x", mtime=t + 2),
+             srv.dnode(["a", "sub", "deep"], t + 3), srv.fnode(["a", "sub", "deep", "y.bin"], 20, cid="vd_y", mtime=t + 4),
+             srv.fnode(["a", "top.bin"], 5, cid="vd_t", mtime=t + 5), srv.dnode(["a", "empty"], t + 6)]
+    views = [{"vk": vk, "p": p} for vk in ("dvd", "ps3") for p in (["a"], ["a", "sub"], ["a", "sub", "deep"], ["a", "empty"])]
+    conns = []
+    k = 0
+    for prefix in ("***DVD***", "***PS3***"):
+        for d in ("a", "a/sub", "a/sub/deep", "a/empty", "a/top.bin", "a/nope"):
+            for lst in (["READ_DIR_ENTRY", "READ_DIR_ENTRY"], ["READ_DIR_ENTRY_V2", "READ_DIR"], ["READ_DIR", "READ_DIR_ENTRY"]):
+                k += 1
+                conns.append({"id": k, "reqs": [{"op": "OPEN_DIR", "path": "/a"}, {"op": "READ_DIR_ENTRY"}, {"op": "OPEN_DIR", "path": "/%s/%s" % (prefix, d)}] +
+                              [{"op": o} for o in lst] + [{"op": "STAT_FILE", "path": "/a"}]})
+    return [{"name": "virtual-dirs", "aw": False, "nodes": nodes, "views": views, "conns": conns, "probe": True, "quiesce": True}]
+
+
 def truncation_worlds(rng, nodes):
     """Every truncation point of every request kind, after a short state-setting prefix."""
     worlds = []
@@ -84,6 +103,7 @@ def run(tier, seed, replay=None):
         tnodes = srv.basic_world(rng)
         worlds += truncation_worlds(rng, tnodes)
         worlds += announced_worlds(rng, tnodes, proto)
+        worlds += virtual_dir_worlds(rng)
 
         # 4. code -> model: seeded random sessions over all opcodes
         n = 40 if tier == "quick" else 400
